@@ -17,7 +17,11 @@ RULE = ("every string of length <= L over the parser's 27 significant characters
         "every search-keyword segment spelling (7 names x lower/upper/mixed case x plain/escaped blank, tab, backslash padding before and "
         "after the name x inverted x notation x parameters), "
         "the corpus of past failures, and seeded random longer strings mixing those characters, keyword names and "
-        "non-ASCII text.  Direct check on the real parser: the outcome is a segment list or a YAMLPathException "
+        "non-ASCII text; bracketed element references and slice bounds in ~95 numeric spellings (every form int / float / complex / "
+        "Fraction would read: signs, underscores, base prefixes, fractions, exponents past the double range, inf / nan names, "
+        "non-ASCII digits) x padding x 10 contexts; demarcation pairs nested 30..1600+ levels deep (balanced, a closer short / "
+        "too many, malformed innermost text, inside search terms and keyword parameters, between ordinary segments) and "
+        "d-fold repetitions of every significant character and short segment.  Direct check on the real parser: the outcome is a segment list or a YAMLPathException "
         "(anything else, or a 5 s timeout, is a violation).  Correspondence: the outcome class (segments / YAML Path "
         "error) equals the Lean model's for ASCII texts.  distinct_nontrivial = distinct texts that parse to >= 2 segments.")
 
@@ -93,6 +97,13 @@ def run(chk: core.Check, what="class", tier=None):
                 for _ in range(60):
                     sc.append((r_ + rng2.choice(parsing.ALPHABET) + rng2.choice(parsing.ALPHABET + parsing.ODD), "auto"))
         jobs += [(c, what) for c in core.chunked(sc, 64)]
+        # element references / slice bounds in every numeric spelling; deeply nested and long repetitive texts
+        num = parsing.numeric_index_texts()
+        deep = parsing.deep_texts(random.Random(chk.seed + 2))
+        chk.extra_cov["numeric_index_texts"] = len(num)
+        chk.extra_cov["deep_texts"] = len(deep)
+        jobs += [([(t, "auto") for t in c], what) for c in core.chunked(num, 64)]
+        jobs += [([(t, "auto") for t in c], what) for c in core.chunked(deep, 256)]
         nrand = 60000 if tier == "quick" else 1500000
         rng = random.Random(chk.seed)
         rnd = []
